@@ -144,6 +144,38 @@ def gen_exhaustive():
         yield p
 
 
+def gen_circular(tier):
+    """Proof objects in which EVERY line states `|- A` (an atom: not valid) and is justified by `subst_type {}` from
+    one citation, or is a block (`subproof`) whose only line is such a step.  No such object is well-founded, so none
+    may be accepted, whatever the identifiers are: identifiers that disagree with positions (negative components count
+    from the end when the item is fetched), blocks carrying such identifiers, citations forward, into and out of blocks."""
+    from kernel.thm import Thm
+    from kernel.type import TyInst
+    from kernel.proof import Proof
+    A, B = atoms()
+    if tier == 'quick':
+        tops, inner_ids = [0, 1, -1], [(0, 0), (1, 0), (-1, 0)]
+    else:
+        tops, inner_ids = [0, 1, 2, -1, -2], [(0, 0), (1, 0), (2, 0), (-1, 0), (-2, 0), (0, -1)]
+    pool = tops + inner_ids
+
+    def step(id_, prev):
+        return lambda: mk_item(id_, 'subst_type', args=TyInst(), prevs=[prev], th=Thm(A))
+
+    def block(id_, iid, prev):
+        return lambda: mk_item(id_, 'subproof', th=Thm(A), sub=[step(iid, prev)()])
+
+    templates = [step(i, c) for i in tops for c in pool] + \
+                [block(i, j, c) for i in tops for j in inner_ids for c in pool]
+    for n in ((1, 2) if tier == 'quick' else (1, 2, 3)):
+        for ts in itertools.product(templates, repeat=n):
+            if n == 3 and sum(1 for _ in ts) and hash(str([id(t) for t in ts])) % 40 != 0:
+                continue       # thorough: a fortieth of the 3-line objects
+            p = Proof()
+            p.items = [t() for t in ts]
+            yield p
+
+
 def base_proofs():
     """Correct proofs, some with blocks."""
     from kernel.thm import Thm
@@ -423,6 +455,16 @@ def run(tier='quick', seed=0):
         distinct.add(str(show(p)))
         if acc and len(samples) < 3:
             samples.append({'accepted': show(p)})
+    n_circ = 0
+    for p in gen_circular(tier):
+        n_circ += 1
+        acc = check_one(p, violations, stats)
+        distinct.add(str(show(p)))
+        if acc:
+            # check_one reports it through the truth-table oracle (`|- A` is not valid); recorded here as well
+            violations.append({'function': 'kernel.theory.Theory.check_proof', 'clause': 'accepted=>well-founded',
+                               'what': 'a proof object whose every line cites another line is accepted', 'proof': show(p)})
+    stats['circular'] = n_circ
     bases = base_proofs()
     for b in bases:
         acc = check_one(b, violations, stats)
@@ -473,7 +515,7 @@ def run(tier='quick', seed=0):
             uniq.append(v)
     return {'name': 'c02_checker', 'rule': 'exhaustive proofs of 1 line and (quick: a rotating quarter of) 2 lines over '
             '6 rules x 5 identifiers x 6 citation lists x 6 stated sequents; seeded mutations of 4 correct proofs '
-            '(one with a block); checked_extend over 5 statements x proofs; oracle = truth table over atoms A, B; '
+            '(one with a block); all 1- and 2-line objects whose lines are `|- A by subst_type from <one citation>` or blocks of one such line, identifiers and citations from a pool with negative components (%d objects: none is well-founded); checked_extend' % stats.get('circular', 0) + '  over 5 statements x proofs; oracle = truth table over atoms A, B; '
             'non-trivial = distinct proof objects', 'evaluations': stats['evaluations'],
             'distinct_nontrivial': len(distinct), 'accepted': stats['accepted'], 'samples': samples,
             'violations': uniq[:12], 'n_violations': len(uniq), 'secs': round(time.time() - t0, 1)}
